@@ -170,6 +170,17 @@ _WHERE = {
             "projection, the HTML tokenizer that reads the URLs back, the file system, CPython.",
             "TLA+ spec (DepFiles/DepFilesOps) model-checked with TLC (fault enumeration over missing files); TLC-generated "
             "cases replayed on real directories; recorded projections validated by TLC trace spec (FilesTrace)"),
+    "C13": ("depjson", "C13",
+            "TLC checks for every string up to the bound over an alphabet containing script/SCRIPT/Script as letter blocks "
+            "that the neutralised JSON text contains no end-tag-like '</script' and still decodes to the original, and for "
+            "every short text of segments that extraction yields each distinct serialisation once in order and only the "
+            "first placeholder is replaced; each enumerated string is put into a field of a real dependency, serialised "
+            "and read back through HTMLTextDocument, and TLC scans the real serialised element; enumerated and random "
+            "texts are run through the real HTMLTextDocument and the recovered ids / remaining markers are judged by TLC.",
+            "Trusted: TLC/SANY, EndTagAt/ExtractDeps/Remaining/Rendered in spec/DepJsonOps.tla, Python equality on the "
+            "dependency fields, the marker scanner, HTMLDocument as the source of the expected head markup, CPython.",
+            "TLA+ spec (DepJson/DepJsonOps) model-checked with TLC; TLC-generated strings and texts replayed into the "
+            "code; recorded serialisations and extractions validated by TLC trace spec (JsonTrace)"),
 }
 
 NOT_YET = {}
